@@ -7,12 +7,12 @@ BASE = dict(KeySet="mcKeys1", TimeSet="{1}", VLens="{4}", MaxOff=5, MaxBatch=2, 
             OptRecover="FF", AllowRO="FALSE", AllowRmIndex="FALSE", AllowMigrate="FALSE")
 SUBST = {"KeySet", "OptKeep", "OptEager", "OptCheck", "OptRecover"}
 
-def cfg(name, invs, props=(), **kw):
+def cfg(name, invs, props=(), spec="Spec", view="view", **kw):
     c = dict(BASE); c.update(kw)
-    lines = ["SPECIFICATION Spec", "CONSTANTS", "  HashOf <- mcHash", "  KLenOf <- mcKLen"]
+    lines = [f"SPECIFICATION {spec}", "CONSTANTS", "  HashOf <- mcHash", "  KLenOf <- mcKLen"]
     for k, v in c.items():
         lines.append(f"  {k} {'<-' if k in SUBST else '='} {v}")
-    lines.append("VIEW view")
+    lines.append(f"VIEW {view}")
     lines.append("INVARIANTS " + " ".join(invs))
     if props:
         lines.append("PROPERTIES " + " ".join(props))
@@ -31,6 +31,18 @@ cfg("seg_opts_t", CORE, ["NextMonotone"], MaxOff=5, MaxSets=2, Versions="{1, 2}"
     OptCheck="TF", OptRecover="TF", AllowRO="TRUE", AllowRmIndex="TRUE", AllowMigrate="TRUE", Rollovers="{50, 1000}")
 cfg("gen_core_q", ["Emit"], MaxOff=5)
 cfg("gen_core_t", ["Emit"], MaxOff=6, MaxSets=3, Versions="{1, 2}", OptKeep="TF", AllowRmIndex="TRUE")
+# index files: C11 (removal of index files, Check / Recover options, read-only handles, arbitrary time orders, both versions)
+IDX = STRUCT + ["IxRunInv", "ConsumeInv", "GetInv", "ScanInv", "GetByTimeInv", "StatInv"]
+cfg("seg_index_q", IDX, ["NextMonotone", "ReadOnlyRules"], TimeSet="{1, 2}", TimeIndex="TRUE", MaxOff=3, Versions="{1, 2}",
+    OptCheck="TF", OptRecover="TF", AllowRO="TRUE", AllowRmIndex="TRUE")
+cfg("seg_index_t", IDX, ["NextMonotone", "ReadOnlyRules"], TimeSet="{1, 2}", TimeIndex="TRUE", MaxOff=5, Versions="{1, 2}",
+    OptCheck="TF", OptRecover="TF", AllowRO="TRUE", AllowRmIndex="TRUE", AllowMigrate="TRUE")
+# versions: C17 (Migrate, EagerVersionMigrate, KeepRewriteVersion, NewSegmentsVersion changing at every reopen)
+VER = STRUCT + ["IxRunInv", "ConsumeInv", "GetInv", "ScanInv", "StatInv"]
+cfg("seg_versions_q", VER, ["NextMonotone", "VersionRules", "MigrateRules", "ReadOnlyRules"], MaxOff=5, Versions="{1, 2}", OptKeep="TF", OptEager="TF",
+    AllowMigrate="TRUE", AllowRO="TRUE")
+cfg("seg_versions_t", VER, ["NextMonotone", "VersionRules", "MigrateRules", "ReadOnlyRules"], MaxOff=6, Versions="{1, 2}", OptKeep="TF", OptEager="TF",
+    AllowMigrate="TRUE", AllowRO="TRUE", AllowRmIndex="TRUE", TimeSet="{1, 2}", TimeIndex="TRUE")
 # keys: C09
 cfg("seg_keys_q", STRUCT + ["GetByKeyInv", "ConsumeByKeyInv"], KeySet="mcKeys3", VLens="{0, 4}", MaxOff=4, KeyIndex="TRUE", Rollovers="{60, 1000}")
 cfg("seg_keys_t", STRUCT + ["GetByKeyInv", "ConsumeByKeyInv"], KeySet="mcKeys3", VLens="{0, 4}", MaxOff=5, KeyIndex="TRUE", Rollovers="{60, 1000}", AllowRO="TRUE")
@@ -41,3 +53,16 @@ cfg("seg_times_q", STRUCT + ["GetByTimeInv"], TimeSet="{1, 2, 3}", TimeIndex="TR
 cfg("seg_times_t", STRUCT + ["GetByTimeInv"], TimeSet="{1, 2, 3}", TimeIndex="TRUE", AllowRmIndex="TRUE", MaxOff=6, OptRecover="TF", AllowRO="TRUE")
 cfg("gen_times_q", ["Emit"], TimeSet="{1, 2}", TimeIndex="TRUE", MaxOff=4)
 cfg("gen_times_t", ["Emit"], TimeSet="{1, 2, 3}", TimeIndex="TRUE", MaxOff=5, AllowRmIndex="TRUE")
+
+# backup: C20 (KlevBackup.tla)
+BK = dict(spec="BSpec", view="bview", MaxSets=1, TimeSet="{1, 2}", TimeIndex="TRUE", AllowRmIndex="TRUE", MaxClk=2,
+          SkipRule='"size+mtime"', KeepMissingIndex="FALSE", NeedPremise="TRUE")
+BKI = ["BackupExact", "BackupOpensSame", "MtSane", "Fidelity"]
+cfg("backup_q", BKI, ["SourceUntouched"], MaxOff=3, **{**BK, "MaxClk": 1, "TimeSet": "{1}"})
+cfg("backup_t", BKI, ["SourceUntouched"], MaxOff=3, **BK)          # 9.25M states, 7 min
+cfg("backup_versions_t", BKI, ["SourceUntouched"], MaxOff=3, Versions="{1, 2}", **{**BK, "MaxClk": 1, "TimeSet": "{1}"})
+# negative controls (each MUST be violated): skip on mtime alone with a coarse clock; no append-only premise; the
+# behaviour before the fix of the missing-index case
+cfg("backup_no_size", BKI, MaxOff=3, **{**BK, "SkipRule": '"mtime"'})
+cfg("backup_no_premise", BKI, MaxOff=3, **{**BK, "NeedPremise": "FALSE"})
+cfg("backup_no_ixremove", BKI, MaxOff=3, **{**BK, "KeepMissingIndex": "TRUE"})
